@@ -63,3 +63,156 @@ package client
 //@   ghost emptied bool = false
 //@   at call OpenFile#1: ghost emptied := (callarg1 & 512) != 0
 //@   ensures local-no-stale-bytes-survive-a-save: opened ==> emptied
+
+// ---- C44: which proxies must be torn down when the configuration changes
+//@ macro differs(a Tunnel, b Tunnel) bool = a.Target != b.Target || a.Insecure != b.Insecure || a.ProxyHeaderTimeout != b.ProxyHeaderTimeout || a.ProxyHeaderHost != b.ProxyHeaderHost || a.ProxyHeaderMode != b.ProxyHeaderMode
+//@ macro outdated(oldMap map[string]Tunnel, newMap map[string]Tunnel, h string) bool = has(oldMap, h) && (!has(newMap, h) || differs(oldMap[h], newMap[h]))
+
+//@ func diffTunnels(old, new []Tunnel) (r []Tunnel)
+//@   ghost pos gmap[string]int
+//@   ghost oidx gmap[string]int
+//@   ghost nidx gmap[string]int
+//@   at mapupdate#1: ghost oidx[o.Hostname] := rangeindex
+//@   at mapupdate#2: ghost nidx[n.Hostname] := rangeindex#2
+//@   at call append#1: ghost pos[hostname] := len(diff)
+//@   at call append#2: ghost pos[hostname#2] := len(diff)
+//@   ensures local-old-tunnels-are-indexed-by-hostname: (forall i int {old[i]} :: (0 <= i && i < len(old) && old[i].Hostname != "") ==> has(oldMap, old[i].Hostname)) && (forall h string {oidx[h]} :: has(oldMap, h) ==> (h != "" && 0 <= oidx[h] && oidx[h] < len(old) && old[oidx[h]] == oldMap[h] && oldMap[h].Hostname == h))
+//@   ensures local-new-tunnels-are-indexed-by-hostname: (forall i int {new[i]} :: (0 <= i && i < len(new) && new[i].Hostname != "") ==> has(newMap, new[i].Hostname)) && (forall h string {nidx[h]} :: has(newMap, h) ==> (h != "" && 0 <= nidx[h] && nidx[h] < len(new) && new[nidx[h]] == newMap[h] && newMap[h].Hostname == h))
+//@   ensures local-only-removed-or-changed-tunnels-are-reported: forall a int {r[a]} :: (0 <= a && a < len(r)) ==> (outdated(oldMap, newMap, r[a].Hostname) && r[a] == oldMap[r[a].Hostname])
+//@   ensures local-every-removed-or-changed-tunnel-is-reported: forall h string {pos[h]} :: outdated(oldMap, newMap, h) ==> (0 <= pos[h] && pos[h] < len(r) && r[pos[h]] == oldMap[h])
+//@   loop o: invariant build-old: -1 <= rangeindex && rangeindex < len(old) && fresh(oldMap) && fresh(newMap) && oldMap != newMap && unchanged(old) && unchanged(new) && (forall h string :: !has(newMap, h)) && len(diff) == 0 && fresh(diff)
+//@   loop o: invariant indexed: (forall i int {old[i]} :: (0 <= i && i <= rangeindex && old[i].Hostname != "") ==> has(oldMap, old[i].Hostname)) && (forall h string {oidx[h]} :: has(oldMap, h) ==> (h != "" && 0 <= oidx[h] && oidx[h] <= rangeindex && old[oidx[h]] == oldMap[h] && oldMap[h].Hostname == h))
+//@   loop n: invariant build-new: -1 <= rangeindex#2 && rangeindex#2 < len(new) && fresh(oldMap) && fresh(newMap) && oldMap != newMap && unchanged(old) && unchanged(new) && len(diff) == 0 && fresh(diff)
+//@   loop n: invariant old-kept: (forall i int {old[i]} :: (0 <= i && i < len(old) && old[i].Hostname != "") ==> has(oldMap, old[i].Hostname)) && (forall h string {oidx[h]} :: has(oldMap, h) ==> (h != "" && 0 <= oidx[h] && oidx[h] < len(old) && old[oidx[h]] == oldMap[h] && oldMap[h].Hostname == h))
+//@   loop n: invariant indexed: (forall i int {new[i]} :: (0 <= i && i <= rangeindex#2 && new[i].Hostname != "") ==> has(newMap, new[i].Hostname)) && (forall h string {nidx[h]} :: has(newMap, h) ==> (h != "" && 0 <= nidx[h] && nidx[h] <= rangeindex#2 && new[nidx[h]] == newMap[h] && newMap[h].Hostname == h))
+//@   loop oldTunnel: invariant maps-kept: fresh(oldMap) && fresh(newMap) && oldMap != newMap && unchanged(old) && unchanged(new) && fresh(diff) && 0 <= len(diff) && (forall h string :: visited[h] ==> has(newMap, h))
+//@   loop oldTunnel: invariant indexes-kept: (forall i int {old[i]} :: (0 <= i && i < len(old) && old[i].Hostname != "") ==> has(oldMap, old[i].Hostname)) && (forall h string {oidx[h]} :: has(oldMap, h) ==> (h != "" && 0 <= oidx[h] && oidx[h] < len(old) && old[oidx[h]] == oldMap[h] && oldMap[h].Hostname == h)) && (forall i int {new[i]} :: (0 <= i && i < len(new) && new[i].Hostname != "") ==> has(newMap, new[i].Hostname)) && (forall h string {nidx[h]} :: has(newMap, h) ==> (h != "" && 0 <= nidx[h] && nidx[h] < len(new) && new[nidx[h]] == newMap[h] && newMap[h].Hostname == h))
+//@   loop oldTunnel: invariant sound: forall a int {diff[a]} :: (0 <= a && a < len(diff)) ==> (outdated(oldMap, newMap, diff[a].Hostname) && diff[a] == oldMap[diff[a].Hostname])
+//@   loop oldTunnel: invariant changed-so-far: forall h string {pos[h]} :: (visited[h] && has(oldMap, h) && has(newMap, h) && differs(oldMap[h], newMap[h])) ==> (0 <= pos[h] && pos[h] < len(diff) && diff[pos[h]] == oldMap[h])
+//@   loop 4: invariant maps-kept: fresh(oldMap) && fresh(newMap) && oldMap != newMap && unchanged(old) && unchanged(new) && fresh(diff) && 0 <= len(diff) && (forall h string :: visited[h] ==> has(oldMap, h))
+//@   loop 4: invariant indexes-kept: (forall i int {old[i]} :: (0 <= i && i < len(old) && old[i].Hostname != "") ==> has(oldMap, old[i].Hostname)) && (forall h string {oidx[h]} :: has(oldMap, h) ==> (h != "" && 0 <= oidx[h] && oidx[h] < len(old) && old[oidx[h]] == oldMap[h] && oldMap[h].Hostname == h)) && (forall i int {new[i]} :: (0 <= i && i < len(new) && new[i].Hostname != "") ==> has(newMap, new[i].Hostname)) && (forall h string {nidx[h]} :: has(newMap, h) ==> (h != "" && 0 <= nidx[h] && nidx[h] < len(new) && new[nidx[h]] == newMap[h] && newMap[h].Hostname == h))
+//@   loop 4: invariant sound: forall a int {diff[a]} :: (0 <= a && a < len(diff)) ==> (outdated(oldMap, newMap, diff[a].Hostname) && diff[a] == oldMap[diff[a].Hostname])
+//@   loop 4: invariant changed-all: forall h string {pos[h]} :: (has(oldMap, h) && has(newMap, h) && differs(oldMap[h], newMap[h])) ==> (0 <= pos[h] && pos[h] < len(diff) && diff[pos[h]] == oldMap[h])
+//@   loop 4: invariant removed-so-far: forall h string {pos[h]} :: (visited[h] && has(oldMap, h) && !has(newMap, h)) ==> (0 <= pos[h] && pos[h] < len(diff) && diff[pos[h]] == oldMap[h])
+
+//@ func (c *Client) closeOutdatedProxies(tunnels []Tunnel)
+//@   safety off
+//@   opt frame=off
+//@   requires c.proxies != nil
+//@   ensures proxies-of-the-listed-hostnames-are-gone: forall i int {tunnels[i]} :: (0 <= i && i < len(tunnels)) ==> !c.proxies.keys[tunnels[i].Hostname]
+//@   ensures other-proxies-are-kept: forall h string {c.proxies.keys[h]} :: (forall i int {tunnels[i]} :: (0 <= i && i < len(tunnels)) ==> tunnels[i].Hostname != h) ==> (c.proxies.keys[h] == old(c.proxies.keys[h]))
+//@   ensures no-proxy-appears: forall h string {c.proxies.keys[h]} :: c.proxies.keys[h] ==> old(c.proxies.keys[h])
+//@   loop t: invariant gone-so-far: -1 <= rangeindex && rangeindex < len(tunnels) && unchanged(tunnels) && c.proxies == old(c.proxies) && (forall i int {tunnels[i]} :: (0 <= i && i <= rangeindex) ==> !c.proxies.keys[tunnels[i].Hostname])
+//@   loop t: invariant others-kept: (forall h string {c.proxies.keys[h]} :: (forall i int {tunnels[i]} :: (0 <= i && i <= rangeindex) ==> tunnels[i].Hostname != h) ==> (c.proxies.keys[h] == old(c.proxies.keys[h]))) && (forall h string {c.proxies.keys[h]} :: c.proxies.keys[h] ==> old(c.proxies.keys[h]))
+
+//@ macro routeOf(t Tunnel, r route) bool = r.parsed == t.parsed && r.insecure == t.Insecure && r.proxyHeaderReadTimeout == t.ProxyHeaderTimeout && r.proxyHeaderHost == t.ProxyHeaderHost && r.proxyHeaderMode == t.ProxyHeaderMode
+//@ func (c *Config) buildRouter(drop []Tunnel)
+//@   safety off
+//@   opt frame=off
+//@   requires c.router != nil
+//@   requires current-hostnames-are-distinct: forall i, j int {c.Tunnels[i], c.Tunnels[j]} :: (0 <= i && i < j && j < len(c.Tunnels) && c.Tunnels[i].Hostname != "" && c.Tunnels[j].Hostname != "") ==> c.Tunnels[i].Hostname != c.Tunnels[j].Hostname
+//@   ensures every-current-tunnel-is-routed-with-its-current-settings: forall i int {c.Tunnels[i]} :: (0 <= i && i < len(c.Tunnels) && c.Tunnels[i].Hostname != "") ==> (c.router.keys[c.Tunnels[i].Hostname] && routeOf(c.Tunnels[i], c.router.m[c.Tunnels[i].Hostname]))
+//@   ensures dropped-hostnames-not-in-the-current-list-are-unrouted: forall j int {drop[j]} :: (0 <= j && j < len(drop) && (forall i int {c.Tunnels[i]} :: (0 <= i && i < len(c.Tunnels)) ==> c.Tunnels[i].Hostname != drop[j].Hostname)) ==> !c.router.keys[drop[j].Hostname]
+//@   loop 1: invariant dropped-so-far: -1 <= rangeindex && rangeindex < len(drop) && unchanged(drop) && unchanged(c.Tunnels) && c.router == old(c.router) && c.Tunnels == old(c.Tunnels) && (forall j int {drop[j]} :: (0 <= j && j <= rangeindex) ==> !c.router.keys[drop[j].Hostname])
+//@   loop 2: invariant kept: -1 <= rangeindex#2 && rangeindex#2 < len(c.Tunnels) && unchanged(drop) && unchanged(c.Tunnels) && c.router == old(c.router) && c.Tunnels == old(c.Tunnels)
+//@   loop 2: invariant routed-so-far: forall i int {c.Tunnels[i]} :: (0 <= i && i <= rangeindex#2 && c.Tunnels[i].Hostname != "") ==> (c.router.keys[c.Tunnels[i].Hostname] && routeOf(c.Tunnels[i], c.router.m[c.Tunnels[i].Hostname]))
+//@   loop 2: invariant dropped-stay-out: forall j int {drop[j]} :: (0 <= j && j < len(drop) && (forall i int {c.Tunnels[i]} :: (0 <= i && i <= rangeindex#2) ==> c.Tunnels[i].Hostname != drop[j].Hostname)) ==> !c.router.keys[drop[j].Hostname]
+
+// validate only fills in the parsed target of each tunnel
+//@ func (c *Config) validate() (err error)
+//@   safety off
+//@   opt frame=off
+//@   opt strings=abstract
+//@   ensures same-tunnels-same-hostnames: c.Tunnels == old(c.Tunnels) && c.router == old(c.router) && (forall i int {c.Tunnels[i]} :: (0 <= i && i < len(c.Tunnels)) ==> (c.Tunnels[i].Hostname == old(c.Tunnels[i].Hostname) && c.Tunnels[i].Target == old(c.Tunnels[i].Target) && c.Tunnels[i].Insecure == old(c.Tunnels[i].Insecure) && c.Tunnels[i].ProxyHeaderTimeout == old(c.Tunnels[i].ProxyHeaderTimeout) && c.Tunnels[i].ProxyHeaderHost == old(c.Tunnels[i].ProxyHeaderHost) && c.Tunnels[i].ProxyHeaderMode == old(c.Tunnels[i].ProxyHeaderMode)))
+//@   loop tunnel: invariant only-parsed-changes: -1 <= rangeindex && rangeindex < len(c.Tunnels) && c.Tunnels == old(c.Tunnels) && c.router == old(c.router) && (forall i int {c.Tunnels[i]} :: (0 <= i && i < len(c.Tunnels)) ==> (c.Tunnels[i].Hostname == old(c.Tunnels[i].Hostname) && c.Tunnels[i].Target == old(c.Tunnels[i].Target) && c.Tunnels[i].Insecure == old(c.Tunnels[i].Insecure) && c.Tunnels[i].ProxyHeaderTimeout == old(c.Tunnels[i].ProxyHeaderTimeout) && c.Tunnels[i].ProxyHeaderHost == old(c.Tunnels[i].ProxyHeaderHost) && c.Tunnels[i].ProxyHeaderMode == old(c.Tunnels[i].ProxyHeaderMode)))
+
+//@ func (c *Client) RebuildTunnels(tunnels []Tunnel)
+//@   safety off
+//@   opt frame=off
+//@   requires c.proxies != nil && c.Configuration != nil && c.Configuration.router != nil
+//@   requires new-hostnames-are-distinct: forall i, j int {tunnels[i], tunnels[j]} :: (0 <= i && i < j && j < len(tunnels) && tunnels[i].Hostname != "" && tunnels[j].Hostname != "") ==> tunnels[i].Hostname != tunnels[j].Hostname
+//@   ghost d []Tunnel
+//@   ghost diffed bool = false
+//@   ghost closed bool = false
+//@   ghost installed bool = false
+//@   at call diffTunnels#1: assert the-outdated-set-is-computed-from-the-previous-and-the-new-list: callarg0 == c.Configuration.Tunnels && callarg1 == tunnels && !installed
+//@   at after call diffTunnels#1: ghost d := callresult
+//@   at after call diffTunnels#1: ghost diffed := true
+//@   at call closeOutdatedProxies#1: assert outdated-proxies-are-closed-before-the-new-list-is-installed: diffed && !installed && callarg1 == d
+//@   at call closeOutdatedProxies#1: ghost closed := true
+//@   at store Tunnels#1: assert new-list-is-installed-after-closing: closed
+//@   at store Tunnels#1: ghost installed := true
+//@   at call buildRouter#1: assert router-is-rebuilt-from-the-new-list-dropping-the-outdated-hostnames: installed && callarg0 == c.Configuration && callarg1 == d
+//@   ensures local-all-steps-happen: diffed && closed && installed
+
+//@ func (c *Client) doReload$1(prev []Tunnel, curr []Tunnel)
+//@   safety off
+//@   opt frame=off
+//@   requires c.proxies != nil && c.Configuration != nil && c.Configuration.router != nil
+//@   requires the-reloaded-list-is-installed-with-distinct-hostnames: forall i, j int {c.Configuration.Tunnels[i], c.Configuration.Tunnels[j]} :: (0 <= i && i < j && j < len(c.Configuration.Tunnels) && c.Configuration.Tunnels[i].Hostname != "" && c.Configuration.Tunnels[j].Hostname != "") ==> c.Configuration.Tunnels[i].Hostname != c.Configuration.Tunnels[j].Hostname
+//@   ghost d []Tunnel
+//@   ghost diffed bool = false
+//@   ghost closed bool = false
+//@   at call diffTunnels#1: assert outdated-means-in-the-previous-list-but-gone-or-changed-in-the-current-one: callarg0 == prev && callarg1 == curr
+//@   at after call diffTunnels#1: ghost d := callresult
+//@   at after call diffTunnels#1: ghost diffed := true
+//@   at call closeOutdatedProxies#1: assert outdated-proxies-are-closed: diffed && callarg1 == d
+//@   at call closeOutdatedProxies#1: ghost closed := true
+//@   at call buildRouter#1: assert router-drops-the-outdated-hostnames: closed && callarg0 == c.Configuration && callarg1 == d
+
+// ---- C43: hostname assignment during tunnel sync
+//@ macro reusable(inused map[string]string, h string) bool = !contains(h, ".") && !has(inused, h)
+//@ func (c *Client) SyncConfigTunnels(ctx context.Context)
+//@   safety off
+//@   opt frame=off
+//@   requires c.Configuration != nil && c.proxies != nil && c.Configuration.router != nil && c.connections != nil
+//@   requires configured-hostnames-are-distinct: forall i, j int {c.Configuration.Tunnels[i], c.Configuration.Tunnels[j]} :: (0 <= i && i < j && j < len(c.Configuration.Tunnels) && c.Configuration.Tunnels[i].Hostname != "" && c.Configuration.Tunnels[j].Hostname != "") ==> c.Configuration.Tunnels[i].Hostname != c.Configuration.Tunnels[j].Hostname
+//@   ghost t0 gmap[int]Tunnel
+//@   ghost n0 int = 0
+//@   ghost av0 gmap[int]string
+//@   ghost nav int = 0
+//@   ghost asrc gmap[int]int
+//@   ghost apos gmap[int]int
+//@   ghost from gmap[int]int
+//@   ghost fresh set[string] = emptyset(string)
+//@   ghost requested bool = false
+//@   ghost failed bool = false
+//@   ghost reg0 gmap[int]string
+//@   at after call GetRegisteredHostnames#1: ghost reg0 := snap(callresult0)
+//@   at after call GetRegisteredHostnames#1: assume registered-hostnames-are-distinct-and-non-empty: forall i, j int {reg0[i], reg0[j]} :: (0 <= i && i < len(callresult0)) ==> (reg0[i] != "" && ((i < j && j < len(callresult0)) ==> reg0[i] != reg0[j]))
+//@   at after call append#1: ghost t0 := snap(callresult)
+//@   at after call append#1: ghost n0 := len(callresult)
+//@   at after call append#1: assume the-copy-holds-the-configured-tunnels: len(callresult) == len(c.Configuration.Tunnels) && fresh(callresult) && (forall i int {callresult[i]} :: (0 <= i && i < len(callresult)) ==> callresult[i] == c.Configuration.Tunnels[i])
+//@   at call append#2: ghost asrc[len(available)] := rangeindex#2
+//@   at call append#2: ghost apos[rangeindex#2] := len(available)
+//@   at call append#2: ghost av0[len(available)] := hostname
+//@   at call append#2: ghost nav := len(available) + 1
+//@   at call requestHostname#1: assert a-new-name-is-requested-only-when-no-reusable-name-is-left: len(available) == 0
+//@   at after call requestHostname#1: assume a-generated-name-is-new: callresult1 == nil ==> (callresult0 != "" && !has(inused, callresult0) && !fresh[callresult0] && (forall a int {av0[a]} :: (0 <= a && a < nav) ==> av0[a] != callresult0))
+//@   at after call requestHostname#1: ghost failed := failed || callresult1 != nil
+//@   at after call requestHostname#1: ghost requested := callresult1 == nil
+//@   at store Hostname#1: assert the-assigned-name-is-the-reused-or-the-generated-one: requested || (nav - len(available) >= 1 && name == av0[nav - len(available) - 1])
+//@   at store Hostname#1: ghost from[i] := requested ? -1 : nav - len(available) - 1
+//@   at store Hostname#1: ghost fresh := requested ? add(fresh, name) : fresh
+//@   at store Hostname#1: ghost requested := false
+//@   at call RebuildTunnels#1: assert configured-hostnames-and-targets-are-kept: len(callarg1) == n0 && (forall i int {callarg1[i]} :: (0 <= i && i < n0) ==> (callarg1[i].Target == t0[i].Target && (t0[i].Hostname != "" ==> callarg1[i].Hostname == t0[i].Hostname)))
+//@   at call RebuildTunnels#1: assert no-two-tunnels-share-a-hostname: forall p, q int {callarg1[p], callarg1[q]} :: (0 <= p && p < q && q < n0 && callarg1[p].Hostname != "" && callarg1[q].Hostname != "") ==> callarg1[p].Hostname != callarg1[q].Hostname
+//@   at call RebuildTunnels#1: assert every-tunnel-with-a-target-has-a-hostname-unless-a-request-failed: !failed ==> (forall i int {callarg1[i]} :: (0 <= i && i < n0 && callarg1[i].Target != "") ==> callarg1[i].Hostname != "")
+//@   at call RebuildTunnels#1: assert assigned-names-are-generated-or-reusable-registered-ones: forall i int {callarg1[i]} :: (0 <= i && i < n0 && t0[i].Hostname == "" && callarg1[i].Hostname != "") ==> (fresh[callarg1[i].Hostname] || (0 <= from[i] && from[i] < nav && callarg1[i].Hostname == av0[from[i]] && reusable(inused, av0[from[i]])))
+//@   loop t: invariant inuse-so-far: -1 <= rangeindex && rangeindex < len(tunnels) && len(tunnels) == n0 && fresh(tunnels) && fresh(inused) && len(available) == 0 && fresh(available) && nav == 0 && !requested && !failed && (forall j int {tunnels[j]} :: (0 <= j && j <= rangeindex) ==> has(inused, tunnels[j].Hostname)) && (forall h string :: has(inused, h) ==> (exists j int :: 0 <= j && j <= rangeindex && tunnels[j].Hostname == h)) && (forall h string :: !fresh[h])
+//@   loop t: invariant copy-kept: forall i int {tunnels[i]} :: (0 <= i && i < n0) ==> tunnels[i] == t0[i]
+//@   loop hostname: invariant idx: -1 <= rangeindex#2 && rangeindex#2 < len(registered) && len(tunnels) == n0 && fresh(tunnels) && fresh(available) && 0 <= len(available) && len(available) <= rangeindex#2 + 1 && nav == len(available) && !requested && !failed && (forall h string :: !fresh[h]) && available.ref != registered.ref && (forall j int {registered[j]} :: (0 <= j && j < len(registered)) ==> registered[j] == reg0[j])
+//@   loop hostname: invariant copy-kept: forall i int {tunnels[i]} :: (0 <= i && i < n0) ==> tunnels[i] == t0[i]
+//@   loop hostname: invariant reusable-names: forall a int {available[a]} {av0[a]} :: (0 <= a && a < len(available)) ==> (available[a] == av0[a] && 0 <= asrc[a] && asrc[a] <= rangeindex#2 && available[a] == registered[asrc[a]] && reusable(inused, available[a]))
+//@   loop hostname: invariant in-registration-order: forall a, b int {asrc[a], asrc[b]} :: (0 <= a && a < b && b < len(available)) ==> asrc[a] < asrc[b]
+//@   loop hostname: invariant all-reusable-names-collected: forall j int {apos[j]} {reg0[j]} :: (0 <= j && j <= rangeindex#2 && reusable(inused, registered[j])) ==> (0 <= apos[j] && apos[j] < len(available) && available[apos[j]] == registered[j])
+//@   loop i: invariant idx: -1 <= rangeindex#3 && rangeindex#3 < n0 && len(tunnels) == n0 && fresh(tunnels) && 0 <= len(available) && len(available) <= nav && !requested
+//@   loop i: invariant every-reusable-registered-name-is-in-the-pool: forall j int {apos[j]} {reg0[j]} :: (0 <= j && j < len(registered) && reusable(inused, reg0[j])) ==> (0 <= apos[j] && apos[j] < nav && av0[apos[j]] == reg0[j])
+//@   loop i: invariant remaining-names-are-a-suffix: forall a int {available[a]} :: (0 <= a && a < len(available)) ==> available[a] == av0[nav - len(available) + a]
+//@   loop i: invariant reusable-pool: (forall a int {av0[a]} :: (0 <= a && a < nav) ==> (reusable(inused, av0[a]) && av0[a] != "" && !fresh[av0[a]])) && (forall a, b int {av0[a], av0[b]} :: (0 <= a && a < b && b < nav) ==> av0[a] != av0[b])
+//@   loop i: invariant generated-names-are-new: forall h string {fresh[h]} :: fresh[h] ==> (h != "" && !has(inused, h))
+//@   loop i: invariant kept: forall j int {tunnels[j]} :: (0 <= j && j < n0) ==> (tunnels[j].Target == t0[j].Target && (t0[j].Hostname != "" ==> tunnels[j].Hostname == t0[j].Hostname) && (j > rangeindex#3 ==> tunnels[j] == t0[j]) && (t0[j].Hostname != "" ==> has(inused, t0[j].Hostname)))
+//@   loop i: invariant classified: forall j int {tunnels[j]} :: (0 <= j && j <= rangeindex#3 && t0[j].Hostname == "" && tunnels[j].Hostname != "") ==> (fresh[tunnels[j].Hostname] || (0 <= from[j] && from[j] < nav - len(available) && tunnels[j].Hostname == av0[from[j]]))
+//@   loop i: invariant reused-indexes-are-distinct: forall p, q int {from[p], from[q]} :: (0 <= p && p < q && q <= rangeindex#3 && t0[p].Hostname == "" && tunnels[p].Hostname != "" && !fresh[tunnels[p].Hostname] && t0[q].Hostname == "" && tunnels[q].Hostname != "" && !fresh[tunnels[q].Hostname]) ==> from[p] != from[q]
+//@   loop i: invariant distinct: forall p, q int {tunnels[p], tunnels[q]} :: (0 <= p && p < q && q < n0 && tunnels[p].Hostname != "" && tunnels[q].Hostname != "") ==> tunnels[p].Hostname != tunnels[q].Hostname
+//@   loop i: invariant assigned-unless-failed: !failed ==> (forall j int {tunnels[j]} :: (0 <= j && j <= rangeindex#3 && tunnels[j].Target != "") ==> tunnels[j].Hostname != "")
